@@ -52,7 +52,7 @@ vars  == <<alloc, perm, chan, resv, veto, out, last>>
 state == <<alloc, perm, chan, resv, veto>>
 
 Peers    == PeerIPs \X PeerPorts
-StreamClients == Clients \cap {"s1", "s2", "sx"}   \* (sx: the address of s1 once more, connected to a second stream listener)
+StreamClients == Clients \cap {"s1", "s2", "sx", "sy"}   \* (sx: the address of s1 once more, connected to a second stream listener; sy: connected to another local IP of the same, wildcard, listener)
 NoAlloc  == [live |-> FALSE]
 NoChan   == [bound |-> FALSE]
 NoPerms  == [i \in PeerIPs |-> 0]
